@@ -567,3 +567,73 @@ Lemma apply_ops_reorder ops ops' x :
   (forall o1 o2, In o1 ops -> In o2 ops -> o1 = o2 \/ commutable o1 o2 = true) ->
   apply_ops ops x = apply_ops ops' x.
 Proof. intros Hp Hc. exact (apply_ops_perm_lemma ops ops' Hp x Hc). Qed.
+
+(* ------------------------------------------------------------------ boundary shifts *)
+
+Lemma ops_index_top k x i : ops_index [OBlankTop k] x i = i + k.
+Proof. reflexivity. Qed.
+
+Lemma rows_from_in nb j d i l :
+  nth_error d i = Some l -> (nb = true -> blank_line l = false) -> In (j + i) (rows_from nb j d).
+Proof.
+  revert i j. induction d as [|a d IH]; intros i j Hn Hb; [destruct i; discriminate|].
+  destruct i as [|i]; cbn [nth_error] in Hn.
+  - injection Hn as ->. cbn [rows_from]. rewrite Nat.add_0_r.
+    destruct nb; cbn [andb]; [rewrite (Hb eq_refl)|]; left; reflexivity.
+  - cbn [rows_from]. replace (j + S i) with (S j + i) by lia.
+    destruct (nb && blank_line a); [|right]; apply IH; assumption.
+Qed.
+
+Lemma rows_from_inv nb j d r :
+  In r (rows_from nb j d) ->
+  exists i l, r = j + i /\ nth_error d i = Some l /\ (nb = true -> blank_line l = false).
+Proof.
+  revert j. induction d as [|a d IH]; intros j H; [destruct H|].
+  cbn [rows_from] in H.
+  assert (Hrest : In r (rows_from nb (S j) d) ->
+                  exists i l, r = j + i /\ nth_error (a :: d) i = Some l /\ (nb = true -> blank_line l = false)).
+  { intros H'. destruct (IH _ H') as (i & l & -> & Hn & Hb). exists (S i), l. repeat split; [lia|exact Hn|exact Hb]. }
+  destruct (nb && blank_line a) eqn:E; [exact (Hrest H)|].
+  destruct H as [<-|H]; [|exact (Hrest H)].
+  exists 0, a. repeat split; [lia|].
+  intros ->. cbn [andb] in E. exact E.
+Qed.
+
+(* covering: every (selected) row r = S i <= t is put on row t, and the row after it on t + 1, by one of the
+   selected shifts *)
+Lemma boundary_shifts_cover_lemma nb t x i l :
+  nth_error (l_lines x) i = Some l -> (nb = true -> blank_line l = false) -> S i <= t ->
+  exists k, In k (boundary_shifts nb t (l_lines x)) /\
+            S (ops_index [OBlankTop k] x i) = t /\ S (ops_index [OBlankTop k] x (S i)) = S t.
+Proof.
+  intros Hn Hb Hle. exists (t - S i). split; [|rewrite !ops_index_top; lia].
+  unfold boundary_shifts. apply in_map_iff. exists i. split; [reflexivity|].
+  apply filter_In. split.
+  - exact (rows_from_in nb 0 (l_lines x) i l Hn Hb).
+  - apply Nat.leb_le. exact Hle.
+Qed.
+
+(* ... and nothing else is selected: every selected shift puts some (selected) row of the document on row t *)
+Lemma boundary_shifts_only_lemma nb t d k :
+  In k (boundary_shifts nb t d) ->
+  exists i l, nth_error d i = Some l /\ (nb = true -> blank_line l = false) /\ S i <= t /\ k = t - S i.
+Proof.
+  unfold boundary_shifts. intros H. apply in_map_iff in H. destruct H as (r & <- & H).
+  apply filter_In in H. destruct H as (Hin & Hle). apply Nat.leb_le in Hle.
+  destruct (rows_from_inv _ _ _ _ Hin) as (i & l & -> & Hn & Hb).
+  exists i, l. cbn [Nat.add]. repeat split; assumption.
+Qed.
+
+(* the line itself is found on row t of the line table regal builds from the shifted text *)
+Lemma boundary_shift_line_lemma nb t x i l :
+  l_lines x <> [] -> clean_doc (l_lines x) = true ->
+  nth_error (l_lines x) i = Some l -> (nb = true -> blank_line l = false) -> S i <= t ->
+  exists k, In k (boundary_shifts nb t (l_lines x)) /\
+            nth_error (regal_lines (text_of (apply_ops [OBlankTop k] x))) (t - 1) = Some l.
+Proof.
+  intros Hne Hc Hn Hb Hle.
+  destruct (boundary_shifts_cover_lemma nb t x i l Hn Hb Hle) as (k & Hk & Hr & _).
+  exists k. split; [exact Hk|].
+  replace (t - 1) with (ops_index [OBlankTop k] x i) by lia.
+  apply layout_preserves_lines_lemma; try assumption. reflexivity.
+Qed.
